@@ -76,6 +76,13 @@ CONFIGS["tsanabi"] = dict(cc="clang", cflags=["-std=gnu11", "-O1", "-g", "-fPIC"
 CONFIGS["tsan"] = dict(cc="clang", cflags=["-std=gnu11", "-O1", "-g", "-fPIC", "-DNDEBUG", "-fsanitize=thread"],
                        env={"TSAN_OPTIONS": "halt_on_error=1:exitcode=66:report_signal_unsafe=0"})
 
+# the same two with every instruction-set extension of this CPU (the library's AVX2 / AVX-512 paths)
+CONFIGS["tsanabi-native"] = dict(cc="clang", cflags=["-std=gnu11", "-O1", "-g", "-fPIC"],
+                                 libcflags=["-std=gnu11", "-O1", "-g", "-fPIC", "-DNDEBUG", "-fsanitize=thread", "-march=native"],
+                                 ldflags=[WRAP_SCHED])
+CONFIGS["tsan-native"] = dict(cc="clang", cflags=["-std=gnu11", "-O1", "-g", "-fPIC", "-DNDEBUG", "-fsanitize=thread", "-march=native"],
+                              env={"TSAN_OPTIONS": "halt_on_error=1:exitcode=66:report_signal_unsafe=0"})
+
 CHECKS = {}
 
 
@@ -375,11 +382,11 @@ CHECKS["C15"] = dict(
 
 CHECKS["C17"] = dict(
     name="c17", harness=["checks/c17.c", "checks/c17_ops.c", "engine/vsched.c"], instrumented=["checks/c17_ops.c"],
-    harness_by_config={"tsan": ["checks/c17_free.c", "checks/c17_ops.c"]},
-    libs=LIBS_ALL, engine="E-sched",
-    configs={"quick": ["tsanabi", "tsan"], "thorough": ["tsanabi", "tsan"]},
-    shards={"tsanabi": 16, "tsan": 1},
-    deadline={"quick": 150, "thorough": 1800},
+    harness_by_config={"tsan": ["checks/c17_free.c", "checks/c17_ops.c"], "tsan-native": ["checks/c17_free.c", "checks/c17_ops.c"]},
+    libs=LIBS_ALL, engine="E-sched", static_storage_audit=True,
+    configs={"quick": ["tsanabi", "tsan", "tsanabi-native", "tsan-native"], "thorough": ["tsanabi", "tsan", "tsanabi-native", "tsan-native"]},
+    shards={"tsanabi": 16, "tsan": 1, "tsanabi-native": 16, "tsan-native": 1},
+    deadline={"quick": 600, "thorough": 3600},
     rule="operation alphabet of ~65 calls documented as pure (every scalar family, every array codec, packed arrays / bitstream / "
          "a private bitmap on disjoint storage) on three shared read-only inputs and private outputs; harnesses: every unordered "
          "pair {i, j}, i <= j, as two threads (the pair (i, i) forces a collision on any lazily built or static scratch state), "
